@@ -461,6 +461,50 @@ def no_spurious_space(R, ctx):
              "`%s` directly followed by `%s` (e.g. source text `%s`) is separated although the lexer never fuses them: retain_lines inserts a space that is not in the source" % (cls[0], cls[1], ex[0]))
 
 
+def no_synthesised_values(R, ctx):
+    """A declaration that parsed is written back as it was: no `nil` is appended to a `const` whose last value can supply the rest."""
+    from .. import peval
+    from ..peval import make, Enum, Struct, NONE
+    rid = "C03.const-nil"
+    lib = ctx.lib
+    VA = "nodes::statements::local_assign::VariableAssignment"
+    KIND = "nodes::statements::local_assign::AssignmentKind"
+    EXPR = "nodes::expressions::Expression"
+    R.rule(rid, "VariableAssignment::required_nil_values (the number of `nil` values every generator appends, the token-based one included), "
+                "evaluated from its typed tree for both keywords x 1..3 names x 0..3 values x every Expression variant as the last value: 0 "
+                "for `local`; for `const` 0 when there are at least as many values as names or when the last value is a call or `...` "
+                "(they supply the remaining values -- so every declaration that parsed is written back unchanged), names - values otherwise")
+    fn = lib.fn(VA + "::required_nil_values")
+    if not R.require(rid, "anchor:required_nil_values", fn is not None and VA in lib.adts and KIND in lib.adts, "", "not found"):
+        return
+    fields = {f["name"]: f["tys"] for f in lib.adts[VA]["variants"][0]["fields"]}
+    f_kind = [k for k, t in fields.items() if t == KIND]
+    f_vars = [k for k, t in fields.items() if t.startswith("alloc::vec::Vec<") and "TypedIdentifier" in t]
+    f_vals = [k for k, t in fields.items() if t.startswith("alloc::vec::Vec<") and t.endswith("Expression>")]
+    if not R.require(rid, "anchor:fields", len(f_kind) == 1 and len(f_vars) == 1 and len(f_vals) == 1, ctx.adt_where(VA), "keyword / names / values fields by type: %s %s %s" % (f_kind, f_vars, f_vals)):
+        return
+    variants = [v["name"] for v in lib.adts[EXPR]["variants"]]
+    MULTI = {"Call", "VariableArguments"}
+    bad, n = [], 0
+    for kw in [v["name"] for v in lib.adts[KIND]["variants"]]:
+        for nv in (1, 2, 3):
+            for nvals in (0, 1, 2, 3):
+                for last in (variants if nvals else [None]):
+                    values = [Enum(EXPR, "Identifier", {"0": Struct("#payload", {})}) for _ in range(max(0, nvals - 1))] + ([Enum(EXPR, last, {"0": Struct("#payload", {})})] if nvals else [])
+                    node = make(lib, VA, {f_kind[0]: Enum(KIND, kw, {}), f_vars[0]: [Struct("#name", {}) for _ in range(nv)], f_vals[0]: values})
+                    pe = peval.PEval(lib, ctx.an)
+                    try:
+                        got = pe.call_fn(fn, [node])
+                    except peval.OutOfFuel:
+                        got = None
+                    n += 1
+                    want = 0 if kw != "Const" or nv <= nvals or last in MULTI else nv - nvals
+                    if got != want:
+                        bad.append(("%s, %d names, %d values, last value %s" % (kw.lower(), nv, nvals, last), want, got))
+    R.ob(rid, "required_nil_values|table", not bad, ctx.where(fn), "%d cells as specified" % n if not bad else "%s: expected %d appended nil, got %s (%d cells differ)" % (bad[0][0], bad[0][1], bad[0][2], len(bad)))
+    R.require(rid, "floor:cells", n >= 300, "", "%d cells" % n)
+
+
 def run(R, ctx):
     R.explanation = (
         "Static capture/store/replay coverage: full_moon's token accessors (from crate metadata) vs. calls in the converter, "
@@ -478,3 +522,4 @@ def run(R, ctx):
     wire(R, ctx)
     exact_separator(R, ctx)
     no_spurious_space(R, ctx)
+    no_synthesised_values(R, ctx)
